@@ -321,6 +321,23 @@ def append_precondition(ctx, lines, expect):
                                   f"{has_k}, tip position={has_tip} gives accepted={got}", rep)
                 if got == "true" and len(grp) != 1:
                     ctx.violation("append-length", "accepted curve is not in the group", rep)
+                if got == "false" and (len(grp) != 0 or list(grp)):
+                    ctx.violation(f"refused-curve-kept:{how}", f"IndentationGroup.{how} raised MissingMetaDataError but "
+                                  f"the group now holds {len(grp)} curve(s)", rep)
+                # a group that already holds a good curve: a refused one must leave it as it was
+                grp2 = group.IndentationGroup()
+                good = synth_curve(6, spring=0.05)
+                grp2.append(good)
+                try:
+                    grp2.append(idnt) if how == "append" else grp2.__iadd__([idnt])
+                except MissingMetaDataError:
+                    pass
+                except BaseException:  # noqa
+                    pass
+                if len(grp2) != (2 if (has_k or has_tip) else 1):
+                    ctx.violation(f"group-size-after-{'accepted' if (has_k or has_tip) else 'refused'}:{how}",
+                                  f"group of one curve holds {len(grp2)} curves after {how} of a curve with spring "
+                                  f"constant={has_k}, tip position={has_tip}", rep)
                 lines.append({"op": "append", "k": has_k, "tip": has_tip})
                 expect.append(("append", rep["input"], got))
 
